@@ -244,67 +244,77 @@ function buildB(spec) {
 
 // ---- independent path resolver for C12 ----
 // Returns {ok, value} where ok=false when the path cannot be resolved.
-function splitTopLevel(seg) {
-  return seg;
+function looseJson(k) {
+  // what a path segment may carry for a Map key / Set item: plain JSON where possible, else a tolerant form
+  const out = [];
+  try { out.push(String(JSON.stringify(k))); } catch {}
+  try {
+    const anc = [];
+    out.push(String(JSON.stringify(k, function (_k, v) {
+      if (typeof v === "bigint") return `${v}n`;
+      if (typeof v === "object" && v !== null) {
+        while (anc.length > 0 && anc[anc.length - 1] !== this) anc.pop();
+        if (anc.includes(v)) return "[Circular]";
+        anc.push(v);
+      }
+      return v;
+    })));
+  } catch {}
+  return out;
 }
-function resolvePath(root, segs) {
-  let cur = root;
-  for (let i = 0; i < segs.length; i++) {
-    const seg = segs[i];
-    let m;
-    if ((m = /^\[(\d+)\]$/.exec(seg)) && Array.isArray(cur)) {
-      const idx = Number(m[1]);
-      if (idx < cur.length) {
-        cur = cur[idx];
-      } else {
-        // a missing index of an existing array: must be the last hop, value undefined
-        if (i !== segs.length - 1) return { ok: false, why: "missing index not last: " + seg };
-        return { ok: true, value: undefined, missing: true };
-      }
-      continue;
-    }
-    if (cur instanceof Map && (m = /^(key|value)\((.*)\)$/s.exec(seg))) {
-      let found = false;
-      for (const [k, v] of cur) {
-        let js;
-        try { js = JSON.stringify(k); } catch { js = undefined; }
-        if (String(js) === m[2]) {
-          cur = m[1] === "key" ? k : v;
-          found = true;
-          break;
-        }
-      }
-      if (!found) return { ok: false, why: "no map entry for " + seg };
-      continue;
-    }
-    if (cur instanceof Set && (m = /^item\((.*)\)$/s.exec(seg))) {
-      let found = false;
-      for (const v of cur) {
-        let js;
-        try { js = JSON.stringify(v); } catch { js = undefined; }
-        if (String(js) === m[1]) {
-          cur = v;
-          found = true;
-          break;
-        }
-      }
-      if (!found) return { ok: false, why: "no set item for " + seg };
-      continue;
-    }
-    if (cur !== null && (typeof cur === "object" || typeof cur === "function")) {
-      if (Object.prototype.hasOwnProperty.call(cur, seg)) {
-        cur = cur[seg];
-      } else {
-        // missing property of an existing object; allowed only as the last hop
-        if (i !== segs.length - 1) return { ok: false, why: "missing property not last: " + seg };
-        // the validator reads input[k]; an inherited property (e.g. toString) is what is 'found there'
-        return { ok: true, value: cur[seg], missing: true };
-      }
-      continue;
-    }
-    return { ok: false, why: `segment ${JSON.stringify(seg)} does not address into ${typeof cur}` };
+// All positions a path can address (Map keys / Set items are rendered lossily, e.g. NaN -> null, so a segment
+// may match several entries): returns a list of {value, missing}.
+function resolveAll(cur, segs, i, acc, why) {
+  if (acc.length > 64) return;
+  if (i === segs.length) {
+    acc.push({ value: cur });
+    return;
   }
-  return { ok: true, value: cur };
+  const seg = segs[i];
+  const last = i === segs.length - 1;
+  let m;
+  if ((m = /^\[(\d+)\]$/.exec(seg)) && Array.isArray(cur)) {
+    const idx = Number(m[1]);
+    if (idx < cur.length) resolveAll(cur[idx], segs, i + 1, acc, why);
+    else if (last) acc.push({ value: undefined, missing: true });
+    else why.push("missing index not last: " + seg);
+    return;
+  }
+  if (cur instanceof Map && (m = /^(key|value)\((.*)\)$/s.exec(seg))) {
+    let any = false;
+    for (const [k, v] of cur) {
+      if (looseJson(k).includes(m[2])) {
+        any = true;
+        resolveAll(m[1] === "key" ? k : v, segs, i + 1, acc, why);
+      }
+    }
+    if (!any) why.push("no map entry for " + seg);
+    return;
+  }
+  if (cur instanceof Set && (m = /^item\((.*)\)$/s.exec(seg))) {
+    let any = false;
+    for (const v of cur) {
+      if (looseJson(v).includes(m[1])) {
+        any = true;
+        resolveAll(v, segs, i + 1, acc, why);
+      }
+    }
+    if (!any) why.push("no set item for " + seg);
+    return;
+  }
+  if (cur !== null && (typeof cur === "object" || typeof cur === "function")) {
+    if (Object.prototype.hasOwnProperty.call(cur, seg)) {
+      resolveAll(cur[seg], segs, i + 1, acc, why);
+    } else if (last) {
+      // missing property of an existing object; the validator reads input[k], so an inherited member
+      // (e.g. toString) is what is 'found there'
+      acc.push({ value: cur[seg], missing: true });
+    } else {
+      why.push("missing property not last: " + seg);
+    }
+    return;
+  }
+  why.push(`segment ${JSON.stringify(seg)} does not address into ${cur === null ? "null" : typeof cur}`);
 }
 function checkErrors(errors, root, basePath, out, depth = 0) {
   if (!Array.isArray(errors)) {
@@ -317,11 +327,13 @@ function checkErrors(errors, root, basePath, out, depth = 0) {
       continue;
     }
     const full = [...basePath, ...e.path];
-    const r = resolvePath(root, full);
-    if (!r.ok) {
-      out.push(`path ${JSON.stringify(full)} does not resolve: ${r.why}`);
-    } else if (!Object.is(r.value, e.received)) {
-      out.push(`received differs at ${JSON.stringify(full)}: found ${safeShow(r.value)} reported ${safeShow(e.received)}`);
+    const cands = [];
+    const why = [];
+    resolveAll(root, full, 0, cands, why);
+    if (cands.length === 0) {
+      out.push(`path ${JSON.stringify(full)} does not resolve: ${why[0]}`);
+    } else if (!cands.some((c) => Object.is(c.value, e.received))) {
+      out.push(`received differs at ${JSON.stringify(full)}: found ${safeShow(cands[0].value)} reported ${safeShow(e.received)}`);
     }
     if ("isUnionError" in e) {
       if (!Array.isArray(e.errors) || e.errors.length === 0) out.push("union error without inner errors");
@@ -386,14 +398,21 @@ function projectionProblems(data, input, pathStr, out, seen = new Set()) {
     for (let i = 0; i < a.length; i++) projectionProblems(a[i], b[i], `${pathStr}.item#${i}`, out, seen);
     return;
   }
-  if (input instanceof Map || input instanceof Set || input instanceof Date || ArrayBuffer.isView(input)) {
-    out.push(`${pathStr}: input is a ${input.constructor.name} but data is ${Array.isArray(data) ? "an array" : "a plain object"}`);
+  if ((input instanceof Map || input instanceof Set || input instanceof Date || ArrayBuffer.isView(input)) && Array.isArray(data)) {
+    out.push(`${pathStr}: input is a ${input.constructor.name} but data is an array`);
     return;
   }
+  // (a builtin instance accepted by an *object type* may come back as the plain object of its declared parts;
+  //  when the type declares the builtin itself, `validate(data)` above is what catches a lost kind)
   if (Array.isArray(data)) {
     if (!Array.isArray(input)) return void out.push(`${pathStr}: data is an array, input is not`);
-    if (data.length !== input.length) return void out.push(`${pathStr}: array length ${data.length} != ${input.length}`);
-    for (let i = 0; i < data.length; i++) projectionProblems(data[i], input[i], `${pathStr}[${i}]`, out, seen);
+    // a tuple shorter than its type is read with `undefined` for the missing items (unspecified zone of the
+    // statement): data may be longer than the input only by trailing undefined items
+    if (data.length < input.length) return void out.push(`${pathStr}: array length ${data.length} != ${input.length}`);
+    for (let i = input.length; i < data.length; i++) {
+      if (data[i] !== undefined) return void out.push(`${pathStr}: array length ${data.length} != ${input.length}`);
+    }
+    for (let i = 0; i < input.length; i++) projectionProblems(data[i], input[i], `${pathStr}[${i}]`, out, seen);
     return;
   }
   if (Array.isArray(input)) return void out.push(`${pathStr}: input is an array, data is an object`);
@@ -544,7 +563,8 @@ function runQuery(env, q) {
         for (const x of pp) problems.push("not a projection: " + x);
         try {
           const again = p.parse(data, opts);
-          if (!deepEqualOrdered(again, data)) problems.push("parse(data) differs from data: " + safeShow(again) + " vs " + safeShow(data));
+          // equality of values: key order is not part of it (a union merge may reorder keys)
+          if (fingerprintUnordered(again) !== fingerprintUnordered(data)) problems.push("parse(data) differs from data: " + safeShow(again) + " vs " + safeShow(data));
         } catch (e) {
           problems.push("parse(data) threw " + JSON.stringify(thrown(e)));
         }
